@@ -85,6 +85,14 @@ class SxContract:
 
 
 def run_sx(contract, seed=0):
+    import warnings
+    import numpy as np
+    with warnings.catch_warnings(), np.errstate(all="ignore"):
+        warnings.simplefilter("ignore")
+        return _run_sx(contract, seed)
+
+
+def _run_sx(contract, seed=0):
     from . import sx, prove, dag
     c = contract
     t_start = time.time()
